@@ -141,20 +141,22 @@ def handleServeP (args : List String) : Option OutP :=
   | _ => none
 
 /-- `servex <closed> <ns> <localBare> <jidmap> <toks> <progs>`: the output is already closed when
-Serve starts (`closed` = 1) or a program closes it (`ret,c,op…`) -/
+Serve starts (`closed` = 1), was left inside an element by an abandoned Send (2), or a program closes it (`ret,c,op…`) -/
 def handleServeX (args : List String) : Option Out :=
   match args with
   | [cl, ns, lb, jm, toks, progs] => do
     -- `0` / `1`, optionally followed by `d<digits>`: SetCloseDeadline calls before Serve
     let pre := decDls (cl.drop 1).toString
-    let cl ← parseBool (cl.take 1).toString
+    let c1 := (cl.take 1).toString
+    let st ← (if c1 == "0" then some OutSt.opn else if c1 == "1" then some OutSt.closed
+              else if c1 == "2" then some OutSt.broken else none)
     let ws := decWs ns
     let ns ← decNs ns
     let lb ← unhexF (if lb == "-" then "" else lb)
     let jm ← decJidMap jm
     let toks ← (decToks toks).map (wsInput ws)
     let progs ← decProgs progs
-    pure (serveCD { ns := ns, localBare := lb, jidCanon := jidOracle jm } cl pre toks progs)
+    pure (serveCS { ns := ns, localBare := lb, jidCanon := jidOracle jm } st pre toks progs)
   | _ => none
 
 /-- `servew <left> <ns> <localBare> <jidmap> <toks> <progs>`: the connection accepts `left` more writes -/
